@@ -458,7 +458,13 @@ impl<W: Write + io::Seek> ZipWriter<W> {
             file.uncompressed_size = self.stats.bytes_written;
 
             let file_end = writer.stream_position()?;
-            file.compressed_size = file_end - self.stats.start;
+            // After a failed seek the stream can sit inside the header; that is an error, not a panic.
+            file.compressed_size = file_end.checked_sub(self.stats.start).ok_or_else(|| {
+                io::Error::new(
+                    io::ErrorKind::Other,
+                    "Stream position is before the start of the entry's data",
+                )
+            })?;
 
             update_local_file_header(writer, file)?;
             writer.seek(io::SeekFrom::Start(file_end))?;
